@@ -49,6 +49,7 @@ SEQ_ADAPTORS = {
     ('Iterator', 'fuse'): (1, True),             # same elements
     ('Iterator', 'copied'): (1, True),           # element-wise copy
     ('Iterator', 'cloned'): (1, True),           # element-wise clone
+    ('Clone', 'clone'): (1, True),               # v.clone(): an equal sequence
     ('Iterator', 'rev'): (1, False),             # all elements, reversed: fine for a single pass, breaks lock-step
 }
 INHERENT_SEQ_OWNER = re.compile(r'slice::<impl \[|::Vec::<|::VecDeque::<')
@@ -73,18 +74,48 @@ def _whole_defs(body, l):
     return [d for d in body.defs_of(l) if not (d[0] == 'stmt' and d[2]['dst']['p'])]
 
 
-def seq_adaptor(c):
+def seq_adaptor(c, body=None):
     tr = (c.trait or '').split('::')[-1] or None
     ent = SEQ_ADAPTORS.get((tr, c.item))
-    if ent is None: return None
-    if tr is None and not INHERENT_SEQ_OWNER.search(c.name): return None
-    return ent
+    if ent is not None and not (tr is None and not INHERENT_SEQ_OWNER.search(c.name)): return ent
+    # `std::mem::take(&mut v)` / `std::mem::replace(&mut v, new)`: the value v held, i.e. the sequence v
+    if re.search(r'^std::mem::(take|replace)::<', c.name): return (1, True)
+    # `v.drain(..)`: every element of v, in order (only the full range)
+    if tr is None and c.item == 'drain' and INHERENT_SEQ_OWNER.search(c.name) and body is not None and len(c.args) == 2 \
+            and c.args[1]['k'] in ('copy', 'move') and body.locals[c.args[1]['pl']['l']].endswith('ops::RangeFull'): return (1, True)
+    return None
+
+
+def takes_all(body, c):
+    """calls that move the whole content out of `*arg0` and leave it empty / replaced:
+       mem::take(&mut v), mem::replace(&mut v, w), v.drain(..)"""
+    if re.search(r'^std::mem::(take|replace)::<', c.name): return True
+    return c.trait is None and c.item == 'drain' and INHERENT_SEQ_OWNER.search(c.name) is not None and len(c.args) == 2 \
+        and c.args[1]['k'] in ('copy', 'move') and body.locals[c.args[1]['pl']['l']].endswith('ops::RangeFull')
+
+
+def struct_ret_field(cb, f):
+    """crate function whose result is a struct literal: (body, operand initialising field f), else None"""
+    r = root_of(cb, {'k': 'move', 'pl': {'l': 0, 'p': []}})[0]
+    if r is None: return None
+    d = _whole_defs(cb, r)
+    if len(d) == 1 and d[0][0] == 'stmt' and d[0][2]['rv']['k'] == 'agg' and f in d[0][2]['rv'].get('fields', []):
+        return cb, agg_field_operand(d[0][2], f)
+    return None
+
+
+def crate_callee(body, c):
+    F = getattr(body, 'facts', None)
+    if F is None: return None
+    cb = F.bodies.get(c.path) or F.bodies.get(c.name)
+    return cb if cb is not None and cb.kind == 'fn' else None
 
 
 def seq_sources(body, op, in_order=True, crossed=None, acc=(), depth=24):
     """leaves of the sequence an iterator operand walks: list of (kind, key, in_order)
          ('field', (param, ((adt, f), ..)))   a field of a parameter, e.g. self.constraints
-         ('vec', local)                        a local Vec created empty (filled by pushes)
+         ('vec', key)                          a Vec created empty and filled by pushes: a local l, or the field
+                                               (struct local, field name) of a struct value
          ('other', text)                       anything else (a call result, a restricted iterator, ..)
        `crossed` collects the items of the adaptors passed (e.g. 'enumerate')."""
     if crossed is None: crossed = set()
@@ -101,10 +132,23 @@ def seq_sources(body, op, in_order=True, crossed=None, acc=(), depth=24):
             return seq_sources(body, rv['ops'][0], in_order, crossed, fs, depth - 1)
         if rv['k'] == 'ref':
             return seq_sources(body, {'k': 'copy', 'pl': rv['pl']}, in_order, crossed, fs, depth - 1)
+        if rv['k'] == 'agg' and fs and fs[0][1] in rv.get('fields', []):
+            # field of a struct literal: what the literal put there
+            return seq_sources(body, agg_field_operand(d, fs[0][1]), in_order, crossed, fs[1:], depth - 1)
         return [('other', 'local _%d' % l, in_order)]
     c = _callmap(body)[bi]
-    if fs: return [('other', 'projection of ' + c.item, in_order)]
-    ent = seq_adaptor(c)
+    if fs:
+        # field of a struct returned by a crate function that ends in a struct literal (From / new / builder):
+        # follow the literal's operand inside the callee, then the callee's parameter back to our argument
+        cb = crate_callee(body, c); sr = struct_ret_field(cb, fs[0][1]) if cb is not None else None
+        if sr is None: return [('other', 'projection of ' + c.item, in_order)]
+        if len(fs) == 1 and is_empty_vec_operand(cb, sr[1]): return [('vec', (l, fs[0][1]), in_order)]
+        out = []
+        for kind, key, io in seq_sources(cb, sr[1], in_order, crossed, fs[1:], depth - 1):
+            if kind == 'field' and key[0] - 1 < len(c.args): out += seq_sources(body, c.args[key[0] - 1], io, crossed, key[1], depth - 1)
+            else: out.append(('other', 'inside %s: %s' % (c.item, key), io))
+        return out
+    ent = seq_adaptor(c, body)
     if ent is not None:
         n, keeps = ent
         crossed.add(c.item)
@@ -114,6 +158,13 @@ def seq_sources(body, op, in_order=True, crossed=None, acc=(), depth=24):
         return out
     if EMPTY_VEC_CTOR.search(c.name): return [('vec', l, in_order)]
     return [('other', 'result of ' + c.name[:70], in_order)]
+
+
+def is_empty_vec_operand(body, op):
+    r = root_of(body, op, cross_proj=False)[0]
+    if r is None: return False
+    d = _whole_defs(body, r)
+    return len(d) == 1 and d[0][0] == 'call' and EMPTY_VEC_CTOR.search(_callmap(body)[d[0][1]].name) is not None
 
 
 def is_constraints_leaf(leaf):
@@ -176,10 +227,49 @@ def agg_def(body, l, adt_suffix):
     return None
 
 
+def vec_of(body, op):
+    """the collection an operand (usually the `&mut self` of a method call) stands for:
+         a local l                 (also a vector moved out of `self.field`: that local, not `self`)
+         (struct local X, field)   a field of a local struct value, `&mut x.items`
+       through refs / reborrows / copies of the reference."""
+    if op is None or op['k'] not in ('copy', 'move'): return None
+    pl = op['pl']
+    for _ in range(24):
+        l = pl['l']; fs = fields_of_place(pl)
+        if fs:
+            if 1 <= l <= body.argc or len(fs) != 1: return None
+            return (root_of(body, {'k': 'copy', 'pl': {'l': l, 'p': []}})[0], fs[0][1])
+        if 1 <= l <= body.argc: return l
+        defs = _whole_defs(body, l)
+        if len(defs) != 1: return l
+        k, bi, d = defs[0]
+        if k == 'stmt':
+            rv = d['rv']
+            if rv['k'] == 'use' and rv['ops'][0]['k'] in ('copy', 'move'):
+                src = rv['ops'][0]['pl']
+                if fields_of_place(src) and 1 <= src['l'] <= body.argc: return l        # `let v = self.field;`
+                pl = src; continue
+            if rv['k'] == 'ref': pl = rv['pl']; continue
+            return l
+        nm = d['r'] or d['f']
+        if REF_TRANSPARENT.search(T.strip_generics_tail(nm)) and d['args'] and d['args'][0]['k'] in ('copy', 'move'):
+            pl = d['args'][0]['pl']; continue
+        return l
+    return None
+
+
 def recv_root(body, c):
-    """the local collection a method call works on (a vector moved out of `self.field` is that local, not `self`)"""
+    """the collection a method call works on (see vec_of)"""
     if not c.args: return None
-    return root_of(body, c.args[0], REF_TRANSPARENT, cross_proj=False)[0]
+    return vec_of(body, c.args[0])
+
+
+def vec_elem_matches(body, c, vec, elem_ty):
+    pat = r'std::vec::Vec<%s>' % re.escape(elem_ty)
+    a0 = c.args[0]
+    if a0['k'] in ('copy', 'move') and re.search(pat, body.locals[a0['pl']['l']]): return True
+    if isinstance(vec, int): return re.search(pat, body.locals[vec]) is not None
+    return False
 
 
 def pushes_into(body, vec_local=None, elem_ty=None):
@@ -189,9 +279,29 @@ def pushes_into(body, vec_local=None, elem_ty=None):
         r = recv_root(body, c)
         if r is None: continue
         if vec_local is not None and r != vec_local: continue
-        if elem_ty is not None and not re.match(r'^std::vec::Vec<%s>$' % re.escape(elem_ty), body.locals[r].strip()): continue
+        if elem_ty is not None and not vec_elem_matches(body, c, r, elem_ty): continue
         out.append(c)
     return out
+
+
+def vec_str(v):
+    return '_%d' % v if isinstance(v, int) else '_%s.%s' % v
+
+
+def created_empty(body, P):
+    """the vector P starts empty: `Vec::new()` / `with_capacity` / `Default::default()`, directly or as the
+    field of a struct literal (here or at the end of the crate function that returned the struct)"""
+    if isinstance(P, int):
+        d = _whole_defs(body, P)
+        return len(d) == 1 and d[0][0] == 'call' and EMPTY_VEC_CTOR.search(_callmap(body)[d[0][1]].name) is not None
+    X, f = P
+    if X is None: return False
+    d = _whole_defs(body, X)
+    if len(d) != 1: return False
+    if d[0][0] == 'stmt':
+        return d[0][2]['rv']['k'] == 'agg' and f in d[0][2]['rv'].get('fields', []) and is_empty_vec_operand(body, agg_field_operand(d[0][2], f))
+    cb = crate_callee(body, _callmap(body)[d[0][1]]); sr = struct_ret_field(cb, f) if cb is not None else None
+    return sr is not None and is_empty_vec_operand(sr[0], sr[1])
 
 
 def once_per_iteration(body, L, sites):
@@ -215,33 +325,33 @@ def aligned_parameter_vec(ctx, body, loops, P, need_order=True, _guard=None):
     returns (ok, why, fill loop, [(bb, Parameter aggregate stmt)])"""
     _guard = _guard or set()
     if P in _guard: return False, 'cyclic', None, []
-    defs = _whole_defs(body, P)
-    if len(defs) != 1 or defs[0][0] != 'call' or not EMPTY_VEC_CTOR.search(_callmap(body)[defs[0][1]].name):
-        return False, '_%d is not a vector created empty and filled by push' % P, None, []
+    Ps = vec_str(P)
+    if not created_empty(body, P):
+        return False, '%s is not a vector created empty and filled by push' % Ps, None, []
     sites = pushes_into(body, P)
-    if not sites: return False, 'nothing is pushed into _%d' % P, None, []
+    if not sites: return False, 'nothing is pushed into %s' % Ps, None, []
     Ls = {id(innermost(loops, c.bb)): innermost(loops, c.bb) for c in sites}
-    if len(Ls) != 1 or None in Ls.values(): return False, 'the pushes into _%d are not all inside one loop' % P, None, []
+    if len(Ls) != 1 or None in Ls.values(): return False, 'the pushes into %s are not all inside one loop' % Ps, None, []
     L = list(Ls.values())[0]
-    if not L.over_constraints: return False, 'the loop filling _%d (%s) does not walk self.constraints itself' % (P, L.site(body)), L, []
+    if not L.over_constraints: return False, 'the loop filling %s (%s) does not walk self.constraints itself' % (Ps, L.site(body)), L, []
     for leaf in L.leaves:
         if is_constraints_leaf(leaf) and (leaf[2] or not need_order): continue
         if leaf[0] == 'vec' and leaf[2] and aligned_parameter_vec(ctx, body, loops, leaf[1], True, _guard | {P})[0]: continue
-        return False, 'the loop filling _%d also depends on %s%s' % (P, leaf[1] if leaf[0] == 'other' else leaf[0], '' if leaf[2] else ' (order not kept)'), L, []
+        return False, 'the loop filling %s also depends on %s%s' % (Ps, leaf[1] if leaf[0] == 'other' else leaf[0], '' if leaf[2] else ' (order not kept)'), L, []
     ok, why = once_per_iteration(body, L, [c.bb for c in sites])
-    if not ok: return False, 'push into _%d: %s' % (P, why), L, []
+    if not ok: return False, 'push into %s: %s' % (Ps, why), L, []
     # nothing reorders P afterwards / in between
     for c in body.calls:
         if c in sites or not c.args: continue
         if recv_root(body, c) != P: continue
         a0 = c.args[0]
         if a0['k'] not in ('copy', 'move') or '&mut' not in body.locals[a0['pl']['l']]: continue
-        if c.item in VEC_REORDER and (need_order or c.item not in VEC_PERMUTE): return False, '_%d is reordered by `%s` (%s)' % (P, c.item, body.site(c.bb)), L, []
+        if c.item in VEC_REORDER and (need_order or c.item not in VEC_PERMUTE): return False, '%s is reordered by `%s` (%s)' % (Ps, c.item, body.site(c.bb)), L, []
     aggs = []
     for c in sites:
         r = root_of(body, c.args[1])[0]
         a = agg_def(body, r, 'v1::Parameter')
-        if a is None or a[0] not in L.blocks: return False, 'the value pushed into _%d is not a Parameter built in the same iteration' % P, L, []
+        if a is None or a[0] not in L.blocks: return False, 'the value pushed into %s is not a Parameter built in the same iteration' % Ps, L, []
         aggs.append(a)
     return True, '', L, aggs
 
@@ -269,6 +379,20 @@ def parameter_origin(ctx, body, loops, L, op, per_method_P):
             return False, 'lock-step loop walks %s, which is not self.constraints nor a per-constraint parameter vector' % (leaf[1],)
         if nvec and L.over_constraints: return True, 'zipped with the index-aligned parameter vector'
         return False, 'loop item carries a parameter but the loop does not zip self.constraints with a parameter vector'
+    # `&P[i]`: the per-constraint vector indexed with the position of the loop's current constraint
+    d = _whole_defs(body, r)
+    if L is not None and len(d) == 1 and d[0][0] == 'call':
+        c = _callmap(body)[d[0][1]]
+        if c.item in ('index', 'index_mut') and (c.trait or '').split('::')[-1] in ('Index', 'IndexMut') and len(c.args) == 2:
+            P = vec_of(body, c.args[0]); ir, ifs, icalls = root_of(body, c.args[1])
+            a1 = c.args[1]
+            is_pos = ir == L.item and 'enumerate' in L.crossed and ifs[-1:] == [('tuple', '0')] and not icalls \
+                and a1['k'] in ('copy', 'move') and body.locals[a1['pl']['l']] == 'usize'
+            if not is_pos: return False, 'parameter vector is indexed with something else than the position of the current constraint'
+            if not (L.over_constraints and all(is_constraints_leaf(x) and x[2] for x in L.leaves)):
+                return False, 'the indexing loop does not walk self.constraints alone and in order'
+            ok, why, _, _ = aligned_parameter_vec(ctx, body, loops, P) if P is not None else (False, 'vector not traceable', None, None)
+            return (True, 'indexed with the constraint position in the index-aligned parameter vector') if ok else (False, 'indexed parameter vector is not index-aligned with self.constraints: ' + why)
     return False, 'parameter comes from _%d, which is neither built in this iteration nor the item of a lock-step loop' % r
 
 
@@ -310,6 +434,268 @@ def _reads(body, st, depth=4):
     return out
 
 
+# ---------------------------------------------------------------------------------------------------
+# the result value, field by field.  The struct that is returned may be written as a literal, with update syntax
+# (`S { a, ..base }`), or as a base value (`S::from(self)`, `S::default()`) whose fields are then assigned,
+# taken (`mem::take(&mut s.f)`), or changed in place (`s.f.push(..)`).  `final_field_slice` is the backward slice
+# of *the value field f holds at the Ok-exit* in all of these.
+from ..dataflow import Slice
+
+
+def fs_backslice(ctx, body, starts, cut=()):
+    """dataflow.Slicer.backslice, with two refinements:
+       * a field node (l, f) whose struct l is the result of a crate function ending in a struct literal continues
+         in that literal's operand for f only (the stock summary merges all fields of the callee);
+       * `cut`: field nodes (l, f) whose whole-struct definition must not be followed (it is overwritten on every
+         path before the value is used, see final_field_slice)."""
+    S = ctx.S; g = S.graph(body); E = g.edges; FN = g.field_nodes
+    s = Slice(); seen = set(); work = []
+    ctx.counters['slices'] += 1
+    def push(n):
+        if n not in seen: seen.add(n); work.append(n)
+    for n in starts: push(n)
+    oldrefs = old_value_refs(body)
+    while work:
+        n = work.pop()
+        fld = None; cur = n
+        if isinstance(n, tuple) and n[0] == 'w':
+            l, fld, nocut = n[1], n[2], n[3]
+            if not nocut and ((l, fld) in cut or (fld and field_killed(body, l, fld))): continue
+            n = l
+        elif isinstance(n, tuple) and n[0] == 'o':
+            # the field as seen by `mem::take(&mut x.f)` / `mem::replace`: the value it held *before* being overwritten
+            l = n[1]; n = (n[1], n[2])
+            push(('w', l, n[1], True))
+        elif isinstance(n, tuple):
+            l = n[0]
+            push(('w', l, n[1], False))
+        else:
+            l = n
+            for fn_ in FN.get(l, ()): push(fn_)
+            fld = False                                   # whole value: stock behaviour
+        if 1 <= l <= body.argc: s.params.add(l)
+        for e in E.get(n, ()):
+            k = e[0]
+            if k == 'L':
+                src = e[1]; sl = src[0] if isinstance(src, tuple) else src
+                for af in e[2]: s.fields.add(af)
+                if 1 <= sl <= body.argc:
+                    for af in e[2][:1]: s.root_fields.add((sl, af[0], af[1]))
+                if e[3] == 'ref' and isinstance(src, tuple) and cur in oldrefs: push(('o', src[0], src[1]))
+                elif e[3] == 'mutref-back' and src in oldrefs:
+                    # what `mem::take` / `mem::replace` wrote through the reference: Default / its second argument
+                    for a in (oldrefs[src].args[1:] if 'mem::replace' in oldrefs[src].name else []):
+                        if a['k'] in ('copy', 'move'):
+                            from ..dataflow import node_of
+                            push(node_of(a['pl']))
+                        elif a['k'] == 'const': s.consts.add(a['v'])
+                    s.calls.add(oldrefs[src].name); s.call_objs.append(oldrefs[src])
+                else: push(src)
+            elif k == 'C':
+                s.consts.add(e[1])
+                mm = re.search(r'::promoted\[(\d+)\]$', e[1])
+                if mm:
+                    pn = e[1] if e[1] in S.F.bodies else '%s::promoted[%s]' % (body.name.replace('#eager', ''), mm.group(1))
+                    s.merge_summary(S.whole_body(pn, S.depth - 1))
+                if e[2]:
+                    s.fnconsts.add(e[2]); S._merge_callee(s, e[2], S.depth)
+            elif k == 'F':
+                s.calls.add(e[1])
+                c = e[2]
+                if c is None: continue
+                s.call_objs.append(c)
+                if fld and e[3] is None and c.dst['l'] == l and not c.dst['p']:
+                    cb = crate_callee(body, c); sr = struct_ret_field(cb, fld) if cb is not None else None
+                    if sr is not None:
+                        s.merge_summary(S.slice_operand(sr[0], sr[1]) if sr[1] is not None else Slice()); continue
+                S._merge_callee(s, c.path, S.depth, c.name)
+            elif k == 'K':
+                s.closures.add(e[1]); s.merge_summary(S.whole_body(e[1], S.depth - 1))
+    s.locals = {((n[1] if n[0] in ('w', 'o') else n[0]) if isinstance(n, tuple) else n) for n in seen}
+    s.nodes = seen
+    uniq = {}
+    for c in s.call_objs: uniq[id(c)] = c
+    s.call_objs = list(uniq.values())
+    return s
+
+
+def old_value_refs(body):
+    """reference locals (-> the call) that only feed `mem::take` / `mem::replace`: what is read through them is the value the
+    place held before the call overwrote it"""
+    r = getattr(body, '_c09_oldrefs', None)
+    if r is None:
+        r = {}
+        for c in body.calls:
+            if not takes_all(body, c) or not c.args or c.args[0]['k'] not in ('copy', 'move'): continue
+            l = c.args[0]['pl']['l']
+            for _ in range(6):
+                r[l] = c
+                d = _whole_defs(body, l)
+                if len(d) == 1 and d[0][0] == 'stmt' and d[0][2]['rv']['k'] == 'ref' and not fields_of_place(d[0][2]['rv']['pl']): l = d[0][2]['rv']['pl']['l']
+                elif len(d) == 1 and d[0][0] == 'stmt' and d[0][2]['rv']['k'] == 'use' and d[0][2]['rv']['ops'][0]['k'] in ('copy', 'move') and not d[0][2]['rv']['ops'][0]['pl']['p']: l = d[0][2]['rv']['ops'][0]['pl']['l']
+                else: break
+        body._c09_oldrefs = r
+    return r
+
+
+def strong_field_defs(body, X, f):
+    """blocks in which field f of struct local X is given a new value regardless of the old one:
+         `x.f = v`;  `mem::take(&mut x.f)` (-> Default);  `mem::replace(&mut x.f, v)`;  `x.f.drain(..)`;  `x.f.clear()`"""
+    out = set()
+    for bi, st in body.stmts():
+        d = st['dst']
+        if d['l'] == X and [q for q in d['p'] if q != '*'] and len(d['p']) == 1 and isinstance(d['p'][0], dict) and d['p'][0].get('f') == f: out.add(bi)
+    for c in body.calls:
+        if (takes_all(body, c) or (c.item == 'clear' and INHERENT_SEQ_OWNER.search(c.name))) and c.args and vec_of(body, c.args[0]) == (X, f):
+            out.add(c.bb)
+    return out
+
+
+def field_killed(body, X, f):
+    """is the value field f got from the definition of the whole struct X overwritten (strong_field_defs) on every
+    path before `X.f` or X as a whole is read?  (reads = direct operands; `&mut X.f` of the overwriting call is not one)"""
+    cache = body.__dict__.setdefault('_c09_killed', {})
+    if (X, f) in cache: return cache[(X, f)]
+    strong = strong_field_defs(body, X, f)
+    res = False
+    if strong:
+        def reads(pl, is_ref=False):
+            if pl['l'] != X: return False
+            fs = [q for q in pl['p'] if isinstance(q, dict) and 'f' in q]
+            if not fs: return True                       # the whole struct (moved, copied, borrowed)
+            return fs[0]['f'] == f and not is_ref          # X.f read directly
+        uses = set()
+        for bi in body.live:
+            blk = body.blocks[bi]
+            for st in blk['st']:
+                if 'rv' not in st: continue
+                rv = st['rv']
+                if any(o['k'] in ('copy', 'move') and reads(o['pl']) for o in rv.get('ops', [])): uses.add(bi)
+                if 'pl' in rv and reads(rv['pl'], rv['k'] in ('ref', 'rawptr')): uses.add(bi)
+            t = blk['term']
+            if t['k'] == 'call' and any(a['k'] in ('copy', 'move') and reads(a['pl']) for a in t['args']): uses.add(bi)
+        uses -= strong
+        res = True
+        for k, bi, d in _whole_defs(body, X):
+            if k != 'call' and bi in strong: continue
+            st0 = d['t'] if k == 'call' else bi
+            if st0 is None or st0 < 0 or not T.must_pass(body, st0, uses, strong): res = False
+    cache[(X, f)] = res
+    return res
+
+
+def final_field_slice(ctx, body, X, f):
+    """slice of the value `X.f` holds when X is returned"""
+    return fs_backslice(ctx, body, [(X, f)])
+
+
+def result_structs(body, adt_suffix):
+    """[(exit block, struct local)] for every Ok-exit: the local holding the struct that is returned"""
+    out = []
+    for e, k, st in body.ret_assignments():
+        if k != 'ok' or 'rv' not in st or not st['rv'].get('ops'): continue
+        X = root_of(body, st['rv']['ops'][0])[0]
+        if X is not None and not (1 <= X <= body.argc) and body.locals[X].endswith(adt_suffix): out.append((e, X))
+    return out
+
+
+def field_vec(body, X, f):
+    """the vector variable behind field f of the result struct X: the local moved into a literal, else the field itself"""
+    d = _whole_defs(body, X)
+    if len(d) == 1 and d[0][0] == 'stmt' and d[0][2]['rv']['k'] == 'agg' and f in d[0][2]['rv'].get('fields', []) and not strong_field_defs(body, X, f):
+        return vec_of(body, agg_field_operand(d[0][2], f))
+    return (X, f)
+
+
+# the largest defined id, one idiom per entry (all on an ordered set / map of the ids, or an explicit maximum)
+MAX_IDIOMS = [
+    r'BTreeSet::<u64>::(last|pop_last)$',                                                  # ids.last()
+    r'BTreeMap::<u64, .*>::(last_key_value|pop_last|last_entry)$',                         # map.last_key_value()
+    r'btree_set::(Iter|IntoIter)<.*> as std::iter::DoubleEndedIterator>::next_back$',      # ids.iter().next_back() / into_iter().next_back()
+    r'btree_set::(Iter|IntoIter)<.*> as std::iter::Iterator>::(last|max)$',                # ids.iter().last() (ascending order) / .max()
+    r'Rev<std::collections::btree_set::(Iter|IntoIter)<.*>> as std::iter::Iterator>::next$',  # ids.iter().rev().next()
+    r'Iterator>::(max|max_by_key)(::<.*>)?$',                                              # any_iter_of_ids.max()
+    r'Ord>::max$',                                                                         # fold / loop with a.max(b)
+]
+
+
+def fresh_id(ctx, rule, body, op, what, site, fn=None):
+    """new ids derive from the largest defined decision-variable id plus one"""
+    s = slice_op(ctx, body, op)
+    probs = []
+    if not s.has_field('v1::DecisionVariable', 'id'): probs.append('does not depend on the defined decision-variable ids')
+    if not any(s.has_call(r) for r in MAX_IDIOMS): probs.append('does not take the maximum of the defined ids')
+    if not s.has_const(r'^1_u64$'): probs.append('no `+ 1`')
+    ctx.check(not probs, rule, 'T-CARRY', fn or body.name, '%s: %s' % (what, '; '.join(probs)), site)
+    return s
+
+
+# ---------------------------------------------------------------------------------------------------
+# normal-form extension (see notes): a lazily mapped iterator handed to something that drains it completely
+#   * a crate function whose body walks that parameter in a `for` loop left only when the iterator is exhausted
+#   * `sum` / `product` of a non-primitive type (the normal form only rewrites sums of numbers)
+# is the same as collecting first and handing over the Vec: `g(it.map(K))` -> `for x in it { v.push(K(x)) }; g(v)`
+STD_DRAINING = ('sum', 'product')
+
+
+def drains_param(ctx, cb, p):
+    """callee body `cb` walks parameter p in a `for` loop that is only left when the iterator is exhausted"""
+    for lo in T.for_loops(cb):
+        nextc, header, some_bb, none_bb, blocks = lo
+        leaves = seq_sources(cb, nextc.args[0])
+        if leaves != [('other', 'parameter _%d' % p, True)]: continue
+        early = False
+        for b in blocks:
+            for s in cb.succ(b):
+                if s in blocks or cb.blocks[s]['cleanup'] or s == none_bb: continue
+                if cb.is_panic_block(s): continue
+                early = True
+        if not early: return True
+    return False
+
+
+def eagerise(ctx, body):
+    """returns `body`, or a private copy `<fn>#eager` in which every such call is an explicit push loop + the call"""
+    from .. import normalize as NZ
+    from ..facts import Body
+    N = NZ.Normalizer(ctx.F, None, True)
+    rw = NZ.Rewriter(body.d); rw.promoted_of = N._promoted_of
+    done_any = False
+    for bi in range(len(rw.blocks)):
+        b = rw.blocks[bi]; t = b['term']
+        if b['cleanup'] or t['k'] != 'call' or t.get('synthetic') or t['t'] < 0: continue
+        ri = t.get('ri') or {}
+        std = (ri.get('trait') or '') == 'std::iter::Iterator' and ri.get('item') in STD_DRAINING
+        cb = None if std else ctx.F.bodies.get(t.get('rp') or t.get('fp') or '')
+        if not std and (cb is None or cb.kind != 'fn'): continue
+        for ai, a in enumerate(t['args'][:1] if std else t['args']):
+            if a['k'] not in ('move', 'copy') or a['pl']['p']: continue
+            try:
+                base, chain = N._walk_chain(rw, a['pl']['l'])
+            except Exception:
+                continue
+            if not chain or not (std or drains_param(ctx, cb, ai + 1)): continue
+            span = t.get('span'); line = (span or {}).get('lo', 0)
+            orig = dict(t)
+            N._strip_adaptors(rw, chain)
+            it = rw.new_local('?iter'); coll = rw.new_local('std::vec::Vec<?>')
+            b['st'].append(NZ._use(it, a, line))
+            head = rw.new_block(); done = rw.new_block()
+            o, some = N._emit_next(rw, head, it, span, done)
+            entry, last, item_op, cont = N._emit_adaptors(rw, chain, NZ._mv(o, NZ.SOME0), span, head, done)
+            rw.goto(some, entry)
+            b['term'] = NZ.mk_call('std::vec::Vec::<T>::new', 'std::vec::Vec::<T>::new', None, 'std::vec::Vec::<T>', 'new', [], coll, head, span)
+            N._emit_push(rw, last, coll, 'Vec', item_op, span, cont)
+            t2 = dict(orig); t2['args'] = [(NZ._mv(coll) if k == ai else x) for k, x in enumerate(orig['args'])]
+            rw.blocks[done]['term'] = t2
+            done_any = True
+            break
+    if not done_any: return body
+    d = dict(rw.d); d['fn'] = body.name + '#eager'; d['parent'] = body.parent
+    nb = Body(d); nb.facts = ctx.F
+    return nb
+
+
 def is_mul(c):
     return (c.trait or '').endswith('ops::Mul') and c.item == 'mul' and len(c.args) == 2
 
@@ -336,14 +722,15 @@ def square_sites(ctx, body, so):
 
 
 def check_method(ctx, name, uniform):
-    body = ctx.method('C09.anchor/' + name, INST, name)
-    if body is None: return
-    fn = body.name
+    body0 = ctx.method('C09.anchor/' + name, INST, name)
+    if body0 is None: return
+    fn = body0.name
     # ---- coverage of the input message
-    cover(ctx, 'C09.cover/' + name, body, INST, exempt=('parameters',))
-    aggs = find_aggregates(body, 'v1::ParametricInstance')
-    if not aggs:
-        ctx.bad('C09.carry/%s/aggregate' % name, 'ANCHOR', fn, 'no v1::ParametricInstance is built'); return
+    cover(ctx, 'C09.cover/' + name, body0, INST, exempt=('parameters',))
+    body = eagerise(ctx, body0)
+    results = result_structs(body, 'v1::ParametricInstance')
+    if not results:
+        ctx.bad('C09.carry/%s/aggregate' % name, 'ANCHOR', fn, 'no Ok-exit returns a v1::ParametricInstance value that can be traced'); return
     loops = [Loop(body, lo) for lo in T.for_loops(body)]
     cloops = [L for L in loops if L.over_constraints]
     ctx.check(bool(cloops), 'C09.loop/%s' % name, 'T-LOOPMUST', fn, 'no loop walks self.constraints itself (found %d loops)' % len(loops), body.site(),
@@ -351,18 +738,20 @@ def check_method(ctx, name, uniform):
     paggs = find_aggregates(body, 'v1::Parameter')
     ctx.check(bool(paggs), 'C09.parameters/%s/constructed' % name, 'T-CARRY', fn, 'no weight parameter (v1::Parameter literal) is built', body.site())
 
-    for _, agg in aggs:
+    def carry(rule, X, f, **kw):
+        sl = final_field_slice(ctx, body, X, f)
+        return carry_slice(ctx, rule, body, sl, 'field `%s`' % f, kw.get('need_fields', ()), kw.get('need_calls', ()), (), kw.get('not_fields', ()))
+
+    for X in sorted({X for e, X in results}):
         for f in CARRIED:
-            carry_field(ctx, 'C09.carry/%s/%s' % (name, f), body, agg, f, need_fields=[(INST, f)])
+            carry('C09.carry/%s/%s' % (name, f), X, f, need_fields=[(INST, f)])
         # no active constraints in the result
-        carry_field(ctx, 'C09.carry/%s/constraints' % name, body, agg, 'constraints', not_fields=[(INST, 'constraints'), (INST, 'removed_constraints')])
+        carry('C09.carry/%s/constraints' % name, X, 'constraints', not_fields=[(INST, 'constraints'), (INST, 'removed_constraints')])
         # every constraint of the input — already removed ones included — is kept as removed
-        carry_field(ctx, 'C09.carry/%s/removed_constraints' % name, body, agg, 'removed_constraints',
-                    need_fields=[(INST, 'constraints'), (INST, 'removed_constraints')])
+        carry('C09.carry/%s/removed_constraints' % name, X, 'removed_constraints', need_fields=[(INST, 'constraints'), (INST, 'removed_constraints')])
         # objective = old objective + parameter * g*g
-        so = carry_field(ctx, 'C09.carry/%s/objective' % name, body, agg, 'objective',
-                         need_fields=[(INST, 'objective'), (INST, 'constraints')],
-                         need_calls=[r'ops::Add.* for v1::Function>::add|Function as std::ops::Add', r'ops::Mul'])
+        so = carry('C09.carry/%s/objective' % name, X, 'objective', need_fields=[(INST, 'objective'), (INST, 'constraints')],
+                   need_calls=[r'ops::Add.* for v1::Function>::add|Function as std::ops::Add', r'ops::Mul'])
         if so is not None:
             # weighted products: a multiplication one operand of which is a Parameter
             wsites = [(c, a) for c in so.call_objs if is_mul(c) for a in c.args
@@ -383,19 +772,19 @@ def check_method(ctx, name, uniform):
                             ok, how = False, 'the weight does not multiply the function of the loop\'s current constraint'
                     ctx.check(ok, 'C09.pair/%s/objective' % name, 'T-CARRY', fn, 'weight and squared function of different constraints: ' + how, body.site(c.bb), how=how)
         # parameters of the result
-        sp = carry_field(ctx, 'C09.carry/%s/parameters' % name, body, agg, 'parameters')
+        sp = carry('C09.carry/%s/parameters' % name, X, 'parameters')
         if sp is not None and paggs:
             ctx.check(any(st['dst']['l'] in sp.locals for _, st in paggs), 'C09.parameters/%s/returned' % name, 'T-CARRY', fn,
                       'the weight parameter built here does not reach the result\'s `parameters`', body.site())
         if not uniform:
             # one weight per constraint: `parameters` is a vector filled once per iteration of a constraint loop
-            P = root_of(body, agg_field_operand(agg, 'parameters'), cross_proj=False)[0]
+            P = field_vec(body, X, 'parameters')
             ok, why, PL, pushed = aligned_parameter_vec(ctx, body, loops, P, need_order=False) if P is not None else (False, 'not traceable', None, [])
             ctx.check(ok, 'C09.parameters/%s/per-constraint' % name, 'T-LOOPMUST', fn, '`parameters` does not hold exactly one weight per constraint: ' + why,
                       PL.site(body) if PL else body.site())
 
     for bi, st in paggs:
-        fresh_id_rule(ctx, 'C09.fresh/%s' % name, body, agg_field_operand(st, 'id'), 'weight parameter id')
+        fresh_id(ctx, 'C09.fresh/%s' % name, body, agg_field_operand(st, 'id'), 'weight parameter id', body.site(), fn)
         L = innermost(loops, bi)
         if not uniform:
             ctx.check(L is not None and L.over_constraints, 'C09.parameters/%s/in-loop' % name, 'T-LOOPMUST', fn, 'parameter is not created inside a loop over self.constraints', body.site(bi))
